@@ -48,7 +48,7 @@ func factsOf(n *sim.Node, ps uint32, lock uint32) facts {
 	if db := n.Store.DB("db"); db != nil {
 		f.Pos = db.Pos().String()
 	}
-	im, _ := sim.DiskImage(n.DBDir("db"), ps)
+	im, _ := sim.StableDiskImage(n.DBDir("db"), ps)
 	f.Image = fmt.Sprintf("%d:%016x", im.N, im.Checksum(lock))
 	ents, _ := os.ReadDir(filepath.Join(n.DBDir("db"), "ltx"))
 	var names []string
